@@ -1587,6 +1587,20 @@ def c16_cli_check(case):
     r = ops.run_main(case['model'], {'check': True}, case['files'])
     if r['exit'] != {'ok': want}:
         return f'--check exit {r["exit"]!r}, expected {want}'
+    # every offending triple is recorded in its graph's metadata
+    gin = [g for f in case['files'] for g in penman.iterdecode(f, model=m)]
+    gout = list(penman.iterdecode(r['out'], model=m))
+    if len(gin) != len(gout):
+        return f'{len(gin)} graphs in, {len(gout)} out'
+    for a, b in zip(gin, gout):
+        errs = m.errors(a)
+        recorded = ' | '.join(v for k, v in b.metadata.items() if k.startswith('error-'))
+        for triple, msgs in errs.items():
+            ctx = '({}) '.format(' '.join(map(str, triple))) if triple else ''
+            if not any((ctx + msg) in recorded for msg in msgs[-1:]):
+                return f'offending triple {triple!r} not recorded in metadata {dict(b.metadata)!r}'
+        if not errs and recorded:
+            return 'error metadata on a compliant graph'
     return None
 
 
@@ -1956,7 +1970,10 @@ def run_oracle(pid, n, seed, budget_s=None):
                 continue
             ran += 1
             try:
-                r = c(case)
+                import corr
+                r = corr.with_alarm(lambda: c(case), 20)
+                if isinstance(r, dict) and r.get('err') == ['Hang']:
+                    r = 'the real code did not return within 20 s (hang)'
             except Unrepresentable:
                 continue
             except RecursionError:
